@@ -3,6 +3,7 @@ mod chooser;
 mod common;
 mod driver;
 mod e1;
+mod e2;
 mod gen_;
 mod rt;
 mod specs;
